@@ -1,4 +1,5 @@
 """C17 — every column is reachable by exactly one advertised, valid accessor name."""
+import keyword
 import itertools, random, warnings
 from values import err_class
 
@@ -17,7 +18,7 @@ ASSUMPTIONS = ["column names are str or None (other objects as names are outside
                "the model starts after str.lower(): the harness sends name.lower() as code points (full Unicode case mapping is not available in Lean)",
                "attribute names handed to getattr/setattr/t[0,name] are the advertised ones (over [a-z0-9_], where str.lower is the identity and "
                "str.isdigit coincides with ASCII digits)",
-               "Python keywords as accessor names are not flagged"]
+               "an advertised name is valid when str.isidentifier() holds and keyword.iskeyword() does not (t.class is a SyntaxError)"]
 TRUSTED = ["re.sub/str.strip/str.rpartition/str.isdigit/int() as modelled structurally in Serif.Model.Names (exercised by every case)",
            "advertised names are taken as set(dir(t)) - set(object.__dir__(t))"]
 BUDGET_S = {"quick": 25, "thorough": 300}
@@ -316,7 +317,7 @@ class _Run:
             if k == "dir":
                 adv = _advertised(t)
                 self.log.append("adv = sorted(set(dir(t)) - set(object.__dir__(t)))")
-                obs.append({"k": "dir", "adv": [[a, a.isidentifier(), a in class_attrs] for a in adv]})
+                obs.append({"k": "dir", "adv": [[a, a.isidentifier() and not keyword.iskeyword(a), a in class_attrs] for a in adv]})
                 adv_names = adv
             elif k == "getattr":
                 res = []
@@ -493,5 +494,5 @@ LEVEL_TEXT = ("Proof (Lean, all inputs): for every string, the sanitised name is
               "lists to width 3/4 over an adversarial pool, random wide tables and histories, all lookup paths on the live table).")
 LEVEL_NOTE = ("Trusted: Lean kernel; axioms propext/Classical.choice/Quot.sound only; harness and extractor; the model starts after "
               "str.lower() (Unicode case mapping not modelled) and treats re.sub/strip/rpartition/isdigit/int as the structural functions "
-              "in Serif.Model.Names; attribute names passed to lookups are the advertised ASCII ones. Python keywords are not flagged. "
+              "in Serif.Model.Names; attribute names passed to lookups are the advertised ASCII ones. Python keywords are reserved like method names since the repair a16f1cb (keywords_reserved, accessors_not_keyword). "
               "Theorems are about the Lean model; the tie to table.py/naming.py/display.py is the differential run.")
